@@ -2,6 +2,7 @@
     contract; kernel sockets, the selector loop and time are exercised by the correspondence over
     real sockets, not proved).  PARTIAL in that sense.  Property theorems only. *)
 From TP Require Import SModel SProofs.
+From TP Require SStop.
 
 (** serve_forever() returns at once with a task; from then on, and until the task is cancelled,
     the server is listening, whatever clients do. *)
@@ -73,6 +74,17 @@ Proof.
   split; [exact (inv_done_iff _ I Hs)|].
   cbn [step]. rewrite Hl. cbn. auto.
 Qed.
+
+(** ... and it does complete: after the serving task was cancelled, as soon as every connected
+    client has disconnected (in any order, other labels of clients that are gone being no-ops)
+    the task is done, the address stays closed and a Unix server's socket file is gone. *)
+Theorem C19_stop_completes : forall k tr cs,
+  let s := run k tr in
+  v_stopreq s = true ->
+  (forall c, c < length (v_conns s) -> In c cs) ->
+  let s' := fold_left step (map LLeave cs) s in
+  v_done s' = true /\ v_listening s' = false /\ v_sockfile s' = false.
+Proof. exact SStop.stop_completes. Qed.
 
 (** Once the task has completed a Unix server's socket file is gone; while it has not, the file
     is there. *)
@@ -198,3 +210,4 @@ Print Assumptions C19_stop.
 Print Assumptions C19_socket_file.
 Print Assumptions C19_restart.
 Print Assumptions C19_pending_handshake_is_local.
+Print Assumptions C19_stop_completes.
